@@ -344,6 +344,36 @@ func (e *Env) Do(op Op) *Violation {
 		}
 	case "items":
 		return e.CheckScan()
+	case "delbucket":
+		// every key of ONE bucket of a chain that has buckets behind it is deleted, nothing else in between
+		// (looked up in the index files at run time; op.ID picks the bucket): an emptied bucket in the middle
+		// of a chain must not cut off what follows it
+		chains := IndexChains(FilesOf(e.FS), dbDir)
+		var cands [][]string
+		for _, ch := range chains {
+			for bi := 0; bi+1 < len(ch); bi++ {
+				if len(ch[bi]) > 0 {
+					cands = append(cands, ch[bi])
+				}
+			}
+		}
+		if len(cands) == 0 {
+			return nil
+		}
+		idx := map[string]int{}
+		for i, k := range e.Keys {
+			idx[string(k)] = i
+		}
+		for _, k := range cands[op.ID%len(cands)] {
+			ki, ok := idx[k]
+			if !ok {
+				continue
+			}
+			if v := e.Do(Op{K: "del", Key: ki}); v != nil {
+				return v
+			}
+		}
+		e.Probes["bucket_with_successors_emptied"]++
 	case "itemsc":
 		// a scan that is paused after op.Size items while Compact runs (same goroutine), then drained:
 		// nothing was written meanwhile, so it must still return exactly the model
